@@ -35,6 +35,11 @@ WALL_GUARD_S = float(_os.environ.get("VERIF_WALL_GUARD", "60"))
 
 NEW, RUNNABLE, BLOCKED, DONE = "new", "runnable", "blocked", "done"
 
+try:        # thousands of short-lived simulated threads: keep their stacks small
+    _rt.stack_size(512 * 1024)
+except (ValueError, RuntimeError):
+    pass
+
 
 class KernelExit(BaseException):
     """Raised inside simulated threads when their kernel is torn down."""
